@@ -7,10 +7,14 @@
    Deep proofs: Cop.Spec.LifecycleProofs.  Which classes / methods carry the decorators and guards is
    GENERATED from the AST of the tree under test on every run (CopRun.Gen_c19facts).
 
-   The full-strength statement of the property is FALSE of the current code.  It is kept visible below
-   ([fit_pure_full], [unfitted_raises_full_biv], [def_before_use_full]) next to its refutation with a concrete
-   witness (each witness is replayed on the real library by the check: findings F5, F6, F7, F8, F9b, F22-F26, F29, F30)
-   and next to the strongest partial statement that does hold. *)
+   The full-strength statement of the property is still FALSE of the current code in places.  It is kept visible
+   below ([fit_pure_full], [unfitted_raises_full_biv], [def_before_use_full]) next to its refutation with a concrete
+   witness (each witness is replayed on the real library by the check: findings F7, F8, F9b, F22, F23, F25, F26, F29,
+   F30) and next to the strongest statement that does hold.
+   History: F5 (constant overrides never cleared), F6 (TruncatedGaussian remembered data-derived bounds), F12
+   (GaussianKDE.log_probability_density raised) and F24 (<Subclass>.from_dict) were reported by this check and are
+   FIXED in /repo; their refutations (C19_fit_pure_full_refuted for all 8 families, C19_fit_pure_tg_refuted,
+   C19_subclass_from_dict_refuted) have been replaced by the theorems that now hold. *)
 From Coq Require Import ZArith QArith List String Bool Lia.
 From Cop Require Import Model.Lifecycle Model.Vine Model.LifecycleTab Spec.LifecycleProofs.
 From CopRun Require Import Gen_c19facts.
@@ -41,32 +45,48 @@ Section T1.
   Notation fitb := (fit_biv o_frank_theta).
   Notation run_fitsb := (run_fits_b o_frank_theta).
 
-  (* --- the full statement, per ScipyModel family: after ANY history of fits, fitting X gives a model that no
-         public query (to_dict, cdf, pdf, ppf, logpdf, sample) can tell from a fresh model fitted on X --- *)
-  Definition fit_pure_full (f : family) : Prop :=
+  (* --- the full statement, per ScipyModel family: after ANY history of fits, a successful fit of X gives a model
+         that no public query (to_dict, cdf, pdf, ppf, logpdf, sample) can tell from a fresh model fitted on X --- *)
+  Definition fit_pure_full_at (f : family) : Prop :=
     forall s0 hs X g0 g, new_scipy f [] [] = Ok s0 ->
+      er (fit (fst (run_fits s0 hs g0)) X g) = None ->
       observe_s (st (fit (fst (run_fits s0 hs g0)) X g)) = observe_s (st (fit s0 X g)).
 
-  (* REFUTED for every one of the eight families by the history [fit(constant 3.0); fit(X)] (finding F5):
-     the instance-level constant overrides installed by the first fit are never removed, cdf stays the
-     degenerate law at 3.0 *)
-  Theorem C19_fit_pure_full_refuted : forall f, ~ fit_pure_full f.
-  Proof.
-    intros f H.
-    destruct (fit_pure_scipy_refuted o_sfit o_tg_opt o_tolist o_resample f) as (s0 & hs & X & Hn & Hd).
-    destruct (Hd [] []) as [Hne _]. apply Hne. apply H. exact Hn.
-  Qed.
-  Theorem C19_fit_pure_scipy_refuted : forall f,
-      exists s0 hs X, new_scipy f [] [] = Ok s0 /\
-        forall g0 g,
-          observe_s (st (fit (fst (run_fits s0 hs g0)) X g)) <> observe_s (st (fit s0 X g)) /\
-          sm_cdf (observe_s (st (fit (fst (run_fits s0 hs g0)) X g))) = ObsConst QCdf (Some (JNum 3)).
-  Proof. exact (fit_pure_scipy_refuted o_sfit o_tg_opt o_tolist o_resample). Qed.
+  (* HOLDS for seven of the eight families since the F5 / F6 fixes, whatever the constructor arguments.
+     (Before: refuted for all eight by [fit(constant 3.0); fit(X)] -- the instance-level constant overrides were
+     never removed -- and for TruncatedGaussian by [fit X; fit 10X].) *)
+  Theorem C19_fit_pure_scipy_full : forall s0 hs X g0 g,
+      s_fam s0 <> FKDE ->
+      er (fit (fst (run_fits s0 hs g0)) X g) = None ->
+      observe_s (st (fit (fst (run_fits s0 hs g0)) X g)) = observe_s (st (fit s0 X g)).
+  Proof. exact (fit_pure_scipy_full o_sfit o_tg_opt o_tolist o_resample). Qed.
+  (* the six plain families: fit never fails, no hypothesis at all *)
+  Theorem C19_fit_pure_plain : forall s0 hs X g0 g,
+      plain (s_fam s0) ->
+      observe_s (st (fit (fst (run_fits s0 hs g0)) X g)) = observe_s (st (fit s0 X g)).
+  Proof. exact (fit_pure_plain o_sfit o_tg_opt o_tolist o_resample). Qed.
+  Theorem C19_fit_pure_tg : forall s0 hs X g0 g,
+      s_fam s0 = FTrunc ->
+      er (fit (fst (run_fits s0 hs g0)) X g) = None ->
+      observe_s (st (fit (fst (run_fits s0 hs g0)) X g)) = observe_s (st (fit s0 X g)).
+  Proof. exact (fit_pure_tg o_sfit o_tg_opt o_tolist o_resample). Qed.
 
-  (* --- what does hold: purity for histories without the three triggers --- *)
-  (* benign s0 hs X :=  (X constant \/ no constant dataset in hs)                      [F5 trigger excluded]
-                    /\ (options given by the user (TG: both bounds, KDE: sample_size)  [F6/F7 trigger excluded]
-                        \/ every earlier dataset constant) *)
+  (* the former F5 witness [fit const 3.0; fit X]: the degenerate state of the first fit is there, and is gone
+     after the second, for every family *)
+  Theorem C19_refit_after_constant_fixed : forall f,
+      exists s0 hs X, new_scipy f [] [] = Ok s0 /\ hs = [Stub.Xc] /\ X = Stub.X1 /\
+        forall g0 g,
+          sm_cdf (observe_s (fst (run_fits s0 hs g0))) = ObsConst QCdf (Some (JNum 3)) /\
+          s_ov (st (fit (fst (run_fits s0 hs g0)) X g)) = no_ov /\
+          s_const (st (fit (fst (run_fits s0 hs g0)) X g)) = None /\
+          (forall k c, sm_cdf (observe_s (st (fit (fst (run_fits s0 hs g0)) X g))) <> ObsConst k c) /\
+          (er (fit (fst (run_fits s0 hs g0)) X g) = None ->
+           observe_s (st (fit (fst (run_fits s0 hs g0)) X g)) = observe_s (st (fit s0 X g))).
+  Proof. exact (refit_after_constant_fixed o_sfit o_tg_opt o_tolist o_resample). Qed.
+
+  (* --- GaussianKDE still caches _sample_size (F7): purity under `benign` --- *)
+  (* benign s0 hs X :=  stable s0 (not a GaussianKDE, or sample_size given by the user)
+                    \/ every earlier dataset constant *)
   Theorem C19_fit_pure_scipy_partial : forall s0 hs X g0 g,
       benign s0 hs X ->
       er (fit (fst (run_fits s0 hs g0)) X g) = None ->
@@ -79,31 +99,17 @@ Section T1.
       er (fit (fst (run_fits s0 hs g0)) X g) = None ->
       observe_s (st (fit (fst (run_fits s0 hs g0)) X g)) = observe_s (st (fit s0 X g)).
   Proof. exact (fit_pure_scipy_partial_observe o_sfit o_tg_opt o_tolist o_resample). Qed.
-  (* the six plain families (no constructor options): only the constant trigger matters, and fit never fails *)
-  Theorem C19_fit_pure_plain_partial : forall s0 hs X g0 g,
-      plain (s_fam s0) ->
-      (d_const X <> None \/ Forall nonconst hs) ->
-      observe_s (st (fit (fst (run_fits s0 hs g0)) X g)) = observe_s (st (fit s0 X g)).
-  Proof. exact (fit_pure_plain_partial o_sfit o_tg_opt o_tolist o_resample). Qed.
-  Theorem C19_fit_pure_tg_partial : forall s0 hs X g0 g,
-      s_fam s0 = FTrunc ->
-      is_none (s_min s0) = false -> is_none (s_max s0) = false ->
-      (d_const X <> None \/ Forall nonconst hs) ->
-      er (fit (fst (run_fits s0 hs g0)) X g) = None ->
-      observe_s (st (fit (fst (run_fits s0 hs g0)) X g)) = observe_s (st (fit s0 X g)).
-  Proof. exact (fit_pure_tg_partial o_sfit o_tg_opt o_tolist o_resample). Qed.
   Theorem C19_fit_pure_kde_partial : forall s0 hs X g0 g,
       s_fam s0 = FKDE ->
       truthy (s_ss s0) = true ->
-      (d_const X <> None \/ Forall nonconst hs) ->
       er (fit (fst (run_fits s0 hs g0)) X g) = None ->
       observe_s (st (fit (fst (run_fits s0 hs g0)) X g)) = observe_s (st (fit s0 X g)).
-  Proof. exact (fit_pure_kde_partial o_sfit o_tg_opt o_tolist o_resample). Qed.
+  Proof. exact (fit_pure_kde o_sfit o_tg_opt o_tolist o_resample). Qed.
   Theorem C19_fit_pure_after_constants_partial : forall s0 hs X g0 g,
-      Forall isconst hs -> d_const X <> None ->
+      Forall isconst hs ->
       er (fit (fst (run_fits s0 hs g0)) X g) = None ->
       observe_s (st (fit (fst (run_fits s0 hs g0)) X g)) = observe_s (st (fit s0 X g)).
-  Proof. exact (fit_pure_after_constants_partial o_sfit o_tg_opt o_tolist o_resample). Qed.
+  Proof. exact (fit_pure_after_constants o_sfit o_tg_opt o_tolist o_resample). Qed.
 
   (* --- Univariate wrapper, Clayton/Frank/Gumbel, GaussianMultivariate: FULL strength for successful fits
          (the whole result triple -- state, global generator, exception -- is the same as on a fresh object).
@@ -156,15 +162,37 @@ Section T1.
   Proof. exact (get_instance_no_store_args o_sfit o_tg_opt o_tolist o_resample). Qed.
 End T1.
 
-(* ---------- T1 refutations with concrete witnesses (evaluated on the Stub oracles) ---------- *)
-(* F6: TruncatedGaussian() : [fit X; fit 10X] keeps the bounds derived from X *)
-Theorem C19_fit_pure_tg_refuted :
-  exists s0 hs X, new_scipy FTrunc [] [] = Ok s0 /\
-    observe_s (sst (sfit (srun s0 hs) X [])) <> observe_s (sst (sfit s0 X [])) /\
-    s_min (sst (sfit (srun s0 hs) X [])) = qj (d_min Stub.X1 - EPS) /\
-    s_max (sst (sfit (srun s0 hs) X [])) = qj (d_max Stub.X1 + EPS) /\
-    s_min (sst (sfit s0 X [])) = qj (d_min Stub.X10 - EPS).
-Proof. exact fit_pure_tg_refuted. Qed.
+(* ---------- the full statement over ALL oracles, and the refutations that remain (Stub oracles) ---------- *)
+Definition fit_pure_full (f : family) : Prop :=
+  forall o1 o2 o3 o4 s0 hs X g0 g, new_scipy f [] [] = Ok s0 ->
+    er (fit_scipy o1 o2 o3 o4 (fst (run_fits_s o1 o2 o3 o4 s0 hs g0)) X g) = None ->
+    observe_s (st (fit_scipy o1 o2 o3 o4 (fst (run_fits_s o1 o2 o3 o4 s0 hs g0)) X g))
+    = observe_s (st (fit_scipy o1 o2 o3 o4 s0 X g)).
+Theorem C19_fit_pure_full : forall f, f <> FKDE -> fit_pure_full f.
+Proof.
+  intros f Hf o1 o2 o3 o4 s0 hs X g0 g Hn He. apply fit_pure_scipy_full; [|exact He].
+  rewrite new_scipy_default in Hn. inversion Hn; subst s0. destruct f; simpl; congruence.
+Qed.
+(* ... and is still REFUTED for GaussianKDE (F7) *)
+Theorem C19_fit_pure_full_kde_refuted : ~ fit_pure_full FKDE.
+Proof.
+  intro H.
+  specialize (H Stub.sfit Stub.tg_opt Stub.tolist Stub.resample (fresh FKDE) [Stub.X50] Stub.X1 [] [] eq_refl).
+  assert (E : er (fit_scipy Stub.sfit Stub.tg_opt Stub.tolist Stub.resample
+                    (fst (run_fits_s Stub.sfit Stub.tg_opt Stub.tolist Stub.resample (fresh FKDE) [Stub.X50] [])) Stub.X1 []) = None)
+    by (vm_compute; reflexivity).
+  apply H in E. apply (f_equal sm_dict) in E. vm_compute in E. discriminate E.
+Qed.
+(* the former F6 witness TruncatedGaussian() : [fit X; fit 10X]: no bound is stored on the instance any more *)
+Theorem C19_fit_pure_tg_witness_fixed :
+  exists s0 hs X, new_scipy FTrunc [] [] = Ok s0 /\ hs = [Stub.X1] /\ X = Stub.X10 /\
+    observe_s (sst (sfit (srun s0 hs) X [])) = observe_s (sst (sfit s0 X [])) /\
+    s_min (sst (sfit (srun s0 hs) X [])) = JNone /\
+    s_max (sst (sfit (srun s0 hs) X [])) = JNone /\
+    to_dict_scipy (sst (sfit (srun s0 hs) X []))
+    = Ok (JDict [("a", JNum (-2)); ("b", JNum 2); ("loc", JNum 40); ("scale", qj ((60 + 2 * EPS) / 4));
+                 ("type", JStr "copulas.univariate.truncated_gaussian.TruncatedGaussian")]).
+Proof. exact fit_pure_tg_witness_fixed. Qed.
 (* F7: GaussianKDE() : [fit X50; fit X6] resamples 50 points from the 6 and consumes the GLOBAL generator *)
 Theorem C19_fit_pure_kde_refuted :
   exists s0 hs X, new_scipy FKDE [] [] = Ok s0 /\
@@ -297,7 +325,7 @@ Proof. exact get_instance_drops_seed. Qed.
 Theorem C19_get_instance_tg_example :
   exists s s1 s2,
     new_scipy FTrunc [JNum 0] [("random_state", natj 7)] = Ok s /\
-    sst (sfit s Stub.X1 []) = s1 /\ s_max s1 = qj (7 + EPS) /\
+    sst (sfit s Stub.X1 []) = s1 /\ s_max s1 = JNone /\
     get_instance_u (PInstS s1) [] = Ok (OS s2) /\ s2 = s /\ s_max s2 = JNone /\
     (exists s3, get_instance_u (PInstS s1) [("random_state", UJ JNone)] = Ok (OS s3) /\ s_min s3 = JNone).
 Proof. exact get_instance_tg_example. Qed.
@@ -311,21 +339,29 @@ Theorem C19_get_instance_names :
   get_instance_u (PName "copulas.univariate.gaussian.GaussianUnivariate") [("foo", UJ (JNum 3))] = Err TypeErr /\
   get_instance_u (PFamCls FGaussian) [("random_state", UJ (JNum (3 # 2)))] = Err TypeErr.
 Proof. exact get_instance_names. Qed.
-(* construction through the Bivariate entry point: 'independence' evaluates to None (F26);
-   Frank.from_dict / Frank.load in a fresh interpreter raises AttributeError (F24) *)
+(* construction through the Bivariate entry point: 'independence' evaluates to None (F26) *)
 Theorem C19_dispatch_independence_refuted : forall th ta,
     new_biv bworld0 None [("copula_type", JStr "independence")] = (mkBW true [] false, Ok None) /\
     from_dict_biv bworld0 None (biv_dict Independence th ta) = (mkBW true [] false, Err AttributeErr).
 Proof. exact dispatch_independence_refuted. Qed.
-Theorem C19_subclass_from_dict_refuted : forall th ta,
-    from_dict_biv bworld0 (Some Frank) (biv_dict Frank th ta) = (mkBW false [Frank] false, Err AttributeErr).
-Proof. exact subclass_from_dict_refuted. Qed.
-Theorem C19_subclass_from_dict_history_dependent : forall th ta,
+(* <Subclass>.from_dict / .load: since the F24 fix the class it is called on does not matter (before: Frank.from_dict in
+   a fresh interpreter raised AttributeError, and the outcome depended on which class had been used first) *)
+Theorem C19_subclass_from_dict_fixed : forall w c j,
+    from_dict_biv w (Some c) j = from_dict_biv w None j.
+Proof. exact subclass_from_dict_fixed. Qed.
+Theorem C19_subclass_from_dict_roundtrip : forall w c t th ta,
+    t <> Independence ->
+    from_dict_biv w (Some c) (biv_dict t th ta)
+    = (mkBW true (bw_own_empty w) (bw_indep_imported w), Ok (mkB (Some t) th ta None true)).
+Proof. exact subclass_from_dict_roundtrip. Qed.
+Theorem C19_subclass_from_dict_history_independent : forall th ta,
+    from_dict_biv bworld0 (Some Frank) (biv_dict Frank th ta)
+    = (mkBW true [] false, Ok (mkB (Some Frank) th ta None true)) /\
     from_dict_biv (mkBW true [Frank] false) (Some Frank) (biv_dict Frank th ta)
-    = (mkBW true [Frank] false, Err AttributeErr) /\
+    = (mkBW true [Frank] false, Ok (mkB (Some Frank) th ta None true)) /\
     from_dict_biv (mkBW true [Frank] false) (Some Clayton) (biv_dict Frank th ta)
-    = (mkBW true [Frank] false, Ok (mkB (Some Frank) th ta None false)).
-Proof. exact subclass_from_dict_history_dependent. Qed.
+    = (mkBW true [Frank] false, Ok (mkB (Some Frank) th ta None true)).
+Proof. exact subclass_from_dict_history_independent. Qed.
 
 (* ===================================================================================================== *)
 (* T5  no result depends on uninitialised memory (vines; structure model Cop.Model.Vine)                   *)
@@ -382,7 +418,8 @@ Theorem C19_check_fit_first :
   [("Bivariate", "percent_point");
    ("Clayton", "cumulative_distribution"); ("Clayton", "partial_derivative"); ("Clayton", "percent_point"); ("Clayton", "probability_density");
    ("Frank", "cumulative_distribution"); ("Frank", "partial_derivative"); ("Frank", "percent_point"); ("Frank", "probability_density");
-   ("GaussianKDE", "cumulative_distribution"); ("GaussianKDE", "percent_point"); ("GaussianKDE", "probability_density"); ("GaussianKDE", "sample");
+   ("GaussianKDE", "cumulative_distribution"); ("GaussianKDE", "log_probability_density"); ("GaussianKDE", "percent_point");
+   ("GaussianKDE", "probability_density"); ("GaussianKDE", "sample");
    ("GaussianMultivariate", "cumulative_distribution"); ("GaussianMultivariate", "probability_density"); ("GaussianMultivariate", "sample");
    ("GaussianMultivariate", "to_dict");
    ("Gumbel", "cumulative_distribution"); ("Gumbel", "partial_derivative"); ("Gumbel", "percent_point"); ("Gumbel", "probability_density");
@@ -405,16 +442,17 @@ Proof. vm_compute. reflexivity. Qed.
 (* the guards themselves *)
 Theorem C19_guard_shapes :
   guard_shapes =
-  [("check_fit:Bivariate", "if not self.theta: raise NotFittedError('This model is not fitted.') ;; self.check_theta()");
+  [("check_constant_value", "uniques = np.unique(X) ;; if len(uniques) == 1: self._set_constant_value(uniques[0]) return True ;; self._constant_value = None ;; for method_name in ('cumulative_distribution', 'percent_point', 'probability_density', 'sample'): self.__dict__.pop(method_name, None) ;; return False");
+   ("check_fit:Bivariate", "if not self.theta: raise NotFittedError('This model is not fitted.') ;; self.check_theta()");
    ("check_fit:Multivariate", "if not self.fitted: raise NotFittedError('This model is not fitted.')");
    ("check_fit:Univariate", "if not self.fitted: raise NotFittedError('This model is not fitted.')");
    ("check_valid_values", "if isinstance(X, pd.DataFrame): W = X.to_numpy() else: W = X ;; if not len(W): raise ValueError('Your dataset is empty.') ;; if not (np.issubdtype(W.dtype, np.floating) or np.issubdtype(W.dtype, np.integer)): raise ValueError('There are non-numerical values in your data.') ;; if np.isnan(W).any().any(): raise ValueError('There are nan values in your data.') ;; return function(self, X, *args, **kwargs)");
    ("get_instance", "instance = None ;; if isinstance(obj, str): package, name = obj.rsplit('.', 1) instance = getattr(importlib.import_module(package), name)(**kwargs) elif isinstance(obj, type): instance = obj(**kwargs) elif kwargs: instance = obj.__class__(**kwargs) else: args = getattr(obj, '__args__', ()) kwargs = getattr(obj, '__kwargs__', {}) instance = obj.__class__(*args, **kwargs) ;; return instance");
    ("store_args", "args_copy = deepcopy(args) ;; kwargs_copy = deepcopy(kwargs) ;; __init__(self, *args, **kwargs) ;; self.__args__ = args_copy ;; self.__kwargs__ = kwargs_copy")].
 Proof. vm_compute. reflexivity. Qed.
-(* what the fit paths assign on self: nothing else is state a fit can leave behind.  NB no fit path assigns
-   _constant_value or removes the four instance-level overrides on the non-constant branch (F5), TruncatedGaussian._fit
-   assigns min/max (F6), GaussianKDE._get_model assigns _sample_size (F7). *)
+(* what the fit paths assign on self: nothing else is state a fit can leave behind.  Since the fixes
+   _check_constant_value resets _constant_value (and pops the four overrides, see guard_shapes: F5) and
+   TruncatedGaussian._fit assigns only _params (F6); GaussianKDE._get_model still assigns _sample_size (F7). *)
 Theorem C19_fit_writes :
   fit_writes =
   [("BetaUnivariate", "_fit", ["_params"]); ("BetaUnivariate", "_fit_constant", ["_params"]);
@@ -430,9 +468,9 @@ Theorem C19_fit_writes :
    ("ScipyModel", "_fit", []); ("ScipyModel", "_set_params", ["_params"]); ("ScipyModel", "fit", ["fitted"]);
    ("StudentTUnivariate", "_fit", ["_params"]); ("StudentTUnivariate", "_fit_constant", ["_params"]);
    ("Tree", "fit", ["edges"; "fitted"; "level"; "n_nodes"; "previous_tree"; "tau_matrix"; "u_matrix"]);
-   ("TruncatedGaussian", "_fit", ["_params"; "max"; "min"]); ("TruncatedGaussian", "_fit_constant", ["_params"]);
+   ("TruncatedGaussian", "_fit", ["_params"]); ("TruncatedGaussian", "_fit_constant", ["_params"]);
    ("UniformUnivariate", "_fit", ["_params"]); ("UniformUnivariate", "_fit_constant", ["_params"]);
-   ("Univariate", "_check_constant_value", []);
+   ("Univariate", "_check_constant_value", ["_constant_value"]);
    ("Univariate", "_replace_constant_methods", ["cumulative_distribution"; "percent_point"; "probability_density"; "sample"]);
    ("Univariate", "_set_constant_value", ["_constant_value"]);
    ("Univariate", "_set_params", []);
@@ -466,22 +504,27 @@ Example C19_validation_nonvacuous :
                Stub.fit_gm x1 (mkT 3 false false false []) [] = (x1, [], Some ValueErr) /\
                Stub.fit_gm x1 (mkT 4 false true true []) [] = (x1, [], Some ValueErr).
 Proof. exact validation_nonvacuous. Qed.
-(* the machine really runs a history: unfitted query, constant fit, degenerate answer, refit, STILL degenerate (F5) *)
+(* the machine really runs a history: unfitted query, constant fit, degenerate answer, refit, normal answer again
+   (before the F5 fix the last observation was still ObsConst QCdf (Some 3)) *)
 Example C19_history_example :
   Stub.run_history (KFam FGaussian)
     [Query (QU QCdf) 1; Fit (DUni Stub.Xc); Query (QU QCdf) 1; Fit (DUni Stub.X1); Query (QU QCdf) 1]
-  = [ObsErr NotFitted; ObsNone; ObsConst QCdf (Some (JNum 3)); ObsNone; ObsConst QCdf (Some (JNum 3))].
+  = [ObsErr NotFitted; ObsNone; ObsConst QCdf (Some (JNum 3)); ObsNone;
+     ObsScipy QCdf FGaussian [("loc", JNum 4); ("scale", JNum (3 # 2))]].
 Proof. vm_compute. reflexivity. Qed.
 
-Print Assumptions C19_fit_pure_full_refuted.
+Print Assumptions C19_fit_pure_full.
+Print Assumptions C19_fit_pure_full_kde_refuted.
+Print Assumptions C19_refit_after_constant_fixed.
 Print Assumptions C19_fit_pure_scipy_partial.
-Print Assumptions C19_fit_pure_plain_partial.
-Print Assumptions C19_fit_pure_tg_partial.
+Print Assumptions C19_fit_pure_plain.
+Print Assumptions C19_fit_pure_tg.
 Print Assumptions C19_fit_pure_kde_partial.
 Print Assumptions C19_fit_pure_wrapper.
 Print Assumptions C19_fit_pure_biv.
 Print Assumptions C19_fit_pure_gm.
-Print Assumptions C19_fit_pure_tg_refuted.
+Print Assumptions C19_fit_pure_tg_witness_fixed.
+Print Assumptions C19_subclass_from_dict_fixed.
 Print Assumptions C19_fit_pure_kde_refuted.
 Print Assumptions C19_fit_failure_not_atomic_biv.
 Print Assumptions C19_fit_failure_not_atomic_wrapper.
